@@ -188,7 +188,22 @@ func runC06(c *Ctx) {
 						continue
 					}
 					if after && usesObj(info, s, errInv) {
-						trailing = true
+						// the test must look at the input itself: an actual read for the streaming appliers (what is
+						// already buffered says nothing about what the source still holds), len(delta) for the slice applier
+						reads := nodeHasCall(s, true, func(cc *ast.CallExpr) bool {
+							fn := Callee(info, cc)
+							if fn == nil || fn.Pkg() == nil || fn.Pkg().Path() != "bufio" {
+								return false
+							}
+							switch fn.Name() {
+							case "ReadByte", "Read", "Peek", "ReadSlice", "ReadBytes", "Discard":
+								return true
+							}
+							return false
+						}) != nil
+						if reads || nodeHasBuiltin(info, s, "len") {
+							trailing = true
+						}
 					}
 				}
 			}
@@ -401,6 +416,32 @@ func runC09(c *Ctx) {
 		c.Check(k.Val().ExactString() == "4095", r4, pfShort+".maxDeltaChainDepth", k.Pos(), "bound is "+k.Val().ExactString()+" (git's limit is 4095)")
 	} else {
 		c.Unresolved(r4, pfShort+".maxDeltaChainDepth", 0, "constant not found")
+	}
+	// the cached depth is written in one place only, by the walk over parents, and never from a constant: a second
+	// writer (for instance "deltas whose base is outside the pack have depth 1") makes chains through it uncounted
+	if depthF := fieldOf(ohT, "chainDepth"); depthF == nil {
+		c.Unresolved(r4, pfShort+".ObjectHeader.chainDepth", 0, "field not found")
+	} else {
+		nw := 0
+		for _, u := range p.fieldUses(depthF) {
+			if !isWriteAccess(u.File, u.Sel) {
+				continue
+			}
+			nw++
+			in := funcNameOr(u.In, "<pkg>")
+			rhs, _ := assignedIn(u.File, u.Sel)
+			isConst := false
+			if rhs != nil {
+				if tv := info.Types[rhs]; tv.Value != nil {
+					isConst = true
+				}
+			}
+			c.Check(in == pfShort+".checkDeltaChainDepth" && !isConst, r4, in+":writes-chainDepth", u.Sel.Pos(),
+				orStr(ifStr(isConst, "a delta's chain depth is set to a constant instead of being derived from its parents"), orStr(ifStr(in != pfShort+".checkDeltaChainDepth", "chain depth is assigned outside checkDeltaChainDepth (the walk that counts parents)"), "depth is cached only by the parent walk")))
+		}
+		if nw == 0 {
+			c.Unresolved(r4, pfShort+".ObjectHeader.chainDepth:writers", 0, "no writer of chainDepth found")
+		}
 	}
 	if cd := c.MustFunc(r4, pfShort+".checkDeltaChainDepth"); cd != nil {
 		RejectRule(c, r4, cd, "depth-exceeded", condMentionsObj(p.lookupObj(pfShort, "maxDeltaChainDepth")), nil)
